@@ -1,0 +1,51 @@
+//go:build verif
+
+package jschema
+
+// Contracts for govc (see /verif/DESIGN.md; oracle: /verif/spec/45_types.gvs).
+// Comment-only file.
+
+//@ func (SchemaType).ToTokenType()
+//@   props C16
+//@   pure
+//@   ensures result == tokenOfSchemaType(t)
+
+//@ func IsValidType(s)
+//@   props C03
+//@   nopanic
+//@   ensures result == isSchemaTypeName(s)
+
+//@ func (SchemaType).IsOneOf(tt)
+//@   props C03
+//@   nopanic
+//@   ensures result == (len(t) != 0 && (exists k :: 0 <= k && k < len(tt) && tt[k] == t))
+//@   loop 0 invariant rangeindex < len(tt) && (forall k :: 0 <= k && k <= rangeindex ==> tt[k] != t) && len(t) != 0
+//@   loop 0 decreases len(tt) - rangeindex
+
+// the literal-kind predicates of the type guesser are mutually exclusive
+// (C11: the verdict of Guess does not depend on map iteration order)
+//@ func (*typeGuesser).isString()
+//@   props C03 C11
+//@   requires g != nil
+//@   nopanic
+//@   ensures result == (len(g.data) >= 2 && g.data[0] == '"' && g.data[len(g.data)-1] == '"')
+//@ func (*typeGuesser).isBoolean()
+//@   props C03 C11
+//@   requires g != nil
+//@   nopanic
+//@   ensures result == (beq(g.data, "true") || beq(g.data, "false"))
+//@ func (*typeGuesser).isObject()
+//@   props C03 C11
+//@   requires g != nil
+//@   nopanic
+//@   ensures result == beq(g.data, "{")
+//@ func (*typeGuesser).isArray()
+//@   props C03 C11
+//@   requires g != nil
+//@   nopanic
+//@   ensures result == beq(g.data, "[")
+//@ func (*typeGuesser).isNull()
+//@   props C03 C11
+//@   requires g != nil
+//@   nopanic
+//@   ensures result == beq(g.data, "null")
